@@ -46,3 +46,4 @@ def run(ctx):
     boundaries.check(ctx, 'C11.RB', 'C11')
     boundaries.check_codes(ctx, 'C11.RE', 'C11')
     boundaries.check_writes(ctx, 'C11.RW', 'C11')
+    boundaries.check_guards(ctx, 'C11.RG', 'C11')
